@@ -31,6 +31,15 @@ ASSUMPTIONS = ['a centroid is judged only if, on every recorded subset at every 
                'worlds in which the marker stages find no gene for some node with >= 2 children are discarded and counted']
 
 
+def copy_world_with_genes(W, idx):
+    """the same world restricted to a gene panel (columns idx of the reference)"""
+    import copy
+    W2 = copy.copy(W)
+    W2.genes = [W.genes[i] for i in idx]
+    W2.ref_X = W.ref_X[:, idx]
+    return W2
+
+
 def gen(rng, tier, idx):
     wp = world.draw_world_params(rng, cells_per_leaf=[2, rng.choice([3, 5])], blocky=False, degenerate=0.0,
                                  n_unlabelled=rng.choice([0, 2]), odd_names=rng.random() < 0.2,
@@ -61,7 +70,10 @@ def gen(rng, tier, idx):
             # the same composition through the on-the-fly-marker entry point (one run, three pools): its results
             # must equal those of the stages run one by one (then the query is shown to the marker stages as well,
             # as that entry point does)
-            'via_otf': rng.random() < 0.3, 'sched_otf': common.draw_sched(rng)}
+            'via_otf': rng.random() < 0.3, 'sched_otf': common.draw_sched(rng),
+            # two reference datasets with partly different gene panels (same taxonomy): one reference-marker file
+            # each, combined in ONE query-marker selection, then mapping against the first dataset
+            'two_datasets': rng.random() < 0.2, 'panel_seed': rng.randrange(2 ** 31)}
 
 
 def run(scn, sb):
@@ -74,6 +86,39 @@ def run(scn, sb):
     try:
         sch = [dict(s) for s in scn['scheds']]
         # ---- stage 1: statistics from the reference h5ad files
+        two = bool(scn.get('two_datasets')) and len(W.genes) >= 8 and not scn.get('truncate') and not scn.get('via_otf')
+        stats2 = None
+        if two:
+            pr_ = np.random.default_rng(scn['panel_seed'])
+            ng = len(W.genes)
+            only1 = set(int(x) for x in pr_.permutation(ng)[:max(1, ng // 5)])
+            only2 = set(int(x) for x in pr_.permutation(ng)[:max(1, ng // 5)]) - only1
+            idx1 = [i for i in range(ng) if i not in only2]       # dataset 1 lacks the genes only dataset 2 has
+            idx2 = [i for i in range(ng) if i not in only1]
+            W1 = copy_world_with_genes(W, idx1)
+            W2 = copy_world_with_genes(W, idx2)
+            os.makedirs(sb.p('in', 'ds2'), exist_ok=True)
+            ref2 = sb.p('in', 'ds2', 'ref.h5ad')
+            # the second dataset has MORE cells for about half of the leaves (their cells twice, under new ids): the
+            # selection for parents above those leaves is served by the second dataset's marker file
+            lc2 = {lf: list(v) for lf, v in W.leaf_cells().items()}
+            rows2, ids2 = [W2.ref_X], list(W2.ref_ids)
+            for lf in sorted(lc2):
+                if pr_.random() < 0.5:
+                    sel = [i for i, lab in enumerate(W.ref_labels) if lab == lf]
+                    rows2.append(W2.ref_X[sel])
+                    new_ids = ['%s_again' % W.ref_ids[i] for i in sel]
+                    ids2 += new_ids
+                    lc2[lf] += new_ids
+            world.write_h5ad(ref2, np.vstack(rows2), ids2, W2.genes, encoding=scn['stats']['encoding'])
+            stats2 = sb.p('out', 'stats_ds2.h5')
+            o1b, _ = harness.run_call({'policy': 'fifo', 'seed': 0}, drivers.run_precompute, [ref2],
+                                      tax.to_dict(lc2), stats2, sb.p('scratch'), n_processors=2)
+            if o1b[0] != 'ok':
+                viol.append({'cls': 'statistics-stage-fails', 'detail': 'second dataset: ' + o1b[1][:300]})
+                return res
+            W = W1
+            res['probes']['two_datasets'] = 1
         refs = stages._write_reference(sb, W, scn['stats']['n_files'], scn['stats']['encoding'])
         stats = sb.p('out', 'stats.h5')
         o1, s1 = harness.run_call(sch[0], drivers.run_precompute, refs, tax.to_dict(W.leaf_cells()), stats,
@@ -145,9 +190,20 @@ def run(scn, sb):
             viol.append({'cls': 'reference-marker-stage-rejects-statistics', 'detail': o2[1][:400]})
             return res
         refm = sb.p('out', 'refm', 'reference_markers.h5')
+        refm_list = [refm]
+        if stats2 is not None:
+            os.makedirs(sb.p('out', 'refm2'))
+            o2b, _ = harness.run_call({'policy': 'fifo', 'seed': 0}, drivers.run_reference_markers, [stats2],
+                                      sb.p('out', 'refm2'), sb.p('scratch'), n_processors=2,
+                                      n_valid=scn['refm']['n_valid'],
+                                      exact_penetrance=scn['refm']['exact_penetrance'])
+            if o2b[0] != 'ok':
+                viol.append({'cls': 'reference-marker-stage-rejects-statistics', 'detail': 'second dataset: ' + o2b[1][:300]})
+                return res
+            refm_list = [refm, sb.p('out', 'refm2', 'reference_markers.h5')]
         # ---- stage 3: query markers
         qm = sb.p('out', 'qm.json')
-        o3, s3 = harness.run_call(sch[2], drivers.run_query_markers, [refm], qm, sb.p('scratch'),
+        o3, s3 = harness.run_call(sch[2], drivers.run_query_markers, refm_list, qm, sb.p('scratch'),
                                   n_processors=scn['qm']['n_processors'],
                                   n_per_utility=scn['qm']['n_per_utility'], query_path=qp if via_otf else None)
         if o3[0] != 'ok':
